@@ -355,6 +355,74 @@ func checkC16(args []string) {
 		}
 		pw++
 	}
+	// package-written extended files whose chunk boundaries fall on or just below the sizes a reader is likely to
+	// use for a header prefix or a read buffer (512 .. 8192): the ICC profile length moves every later chunk, so each
+	// chunk end (ICCP, ALPH, image chunk, EXIF) is placed at B-d for d = 0, 2 .. 10. A header query that works on a
+	// prefix of the file must still agree with the full decode.
+	aligned := 0
+	for ki := 0; ki < 3; ki++ {
+		w, h := 96, 96
+		img := noiseNRGBA(rng, w, h, 0)
+		od := withDefaults(webp.EncoderOptions{Quality: 90, Method: 2, EXIF: []byte("Exif\x00\x00II*\x00")})
+		od.AlphaCompression = 1 // a zero-valued literal would store the plane raw (9 KB): the ALPH chunk must stay small to be placed
+		o := &od
+		switch ki {
+		case 0: // lossy + small ALPH (smooth alpha): VP8X ICCP ALPH VP8 EXIF
+			for y := 0; y < h; y++ {
+				for x := 0; x < w; x++ {
+					img.Pix[img.PixOffset(x, y)+3] = uint8(255 - y)
+				}
+			}
+		case 1: // lossy opaque: VP8X ICCP VP8 EXIF
+		case 2: // lossless with alpha: VP8X ICCP VP8L EXIF
+			o.Lossless, o.Quality = true, 20
+			for y := 0; y < h; y++ {
+				for x := 0; x < w; x++ {
+					img.Pix[img.PixOffset(x, y)+3] = uint8(255 - x)
+				}
+			}
+		}
+		o.ICC = []byte{7, 7}
+		base := mustEncode(img, o)
+		var ends []int
+		for off := 12; off+8 <= len(base); {
+			sz := int(base[off+4]) | int(base[off+5])<<8 | int(base[off+6])<<16 | int(base[off+7])<<24
+			off += 8 + sz + sz&1
+			ends = append(ends, off)
+		}
+		for _, b := range []int{512, 1024, 2048, 4096, 8192} {
+			for d := 0; d <= 10; d += 2 {
+				for ci, e := range ends {
+					if ci == 0 { // the VP8X chunk itself does not move
+						continue
+					}
+					l := 2 + b - d - e
+					if l < 1 || l > 1<<15 {
+						continue
+					}
+					oo := *o
+					oo.ICC = bytes.Repeat([]byte{byte(b >> 8), byte(d)}, l/2)
+					data := mustEncode(img, &oo)
+					nm := fmt.Sprintf("Encode(96x96,kind%d,icc=%d: chunk %d ends at %d)", ki, l, ci, b-d)
+					v, pan := queryAll(data)
+					if pan != nil {
+						run.Violate("panic|encode-output", nm, nm)
+						continue
+					}
+					if v.decErr != nil {
+						run.Violate("decode-fails|encode-output", nm+": "+v.decErr.Error(), nm)
+						continue
+					}
+					run.Eval(fmt.Sprintf("aligned|k%d|c%d|B%d|d%d", ki, ci, b, d))
+					if key, msg := judgeHeaders(v, true, true, true, w, h, 1, -1, 0); key != "" {
+						run.Violate(key+"|encode-output|aligned|lossless="+fmt.Sprint(o.Lossless), nm+": "+msg, nm)
+					}
+					aligned++
+				}
+			}
+		}
+	}
+	run.Cov["boundary_aligned_files"] = aligned
 	// animation-encoder outputs
 	for i := 0; i < run.Pick(30, 300); i++ {
 		w, h := 2+rng.Intn(12), 2+rng.Intn(12)
